@@ -299,6 +299,13 @@ func (l *HLog) Snapshot() *HLog {
 		Recv: append([][]byte{}, l.Recv...), RecvD: append([]string{}, l.RecvD...), RecvEnd: l.RecvEnd,
 		SendErrs: append([]ErrObs{}, l.SendErrs...), Sent: append([][]byte{}, l.Sent...), SentD: append([]string{}, l.SentD...),
 		HdrErrs: append([]ErrObs{}, l.HdrErrs...), CtxDone: l.CtxDone, Returned: l.Returned, ReturnedAt: l.ReturnedAt, Ctx: l.Ctx}
+	return c
+}
+
+// SnapshotInBubble is Snapshot plus a fresh look at the handler's context
+// (contexts created in a bubble may only be inspected from inside it).
+func (l *HLog) SnapshotInBubble() *HLog {
+	c := l.Snapshot()
 	if c.Ctx != nil && c.Ctx.Err() != nil {
 		c.CtxDone = true
 	}
